@@ -2,6 +2,7 @@ package main
 
 import (
 	"bytes"
+	"math"
 	"os"
 	"fmt"
 	"reflect"
@@ -22,6 +23,10 @@ import (
 type Prog struct {
 	Steps     []Step `json:"steps"`
 	IllFormed bool   `json:"ill_formed,omitempty"`
+	// Burst (generation only): the program ends with a burst of edits that all
+	// aim at ONE instruction (selectors Focus); the scenario aims half of its
+	// observers at the same instruction.
+	Focus []int `json:"focus,omitempty"`
 	// Literal: most instructions are built as struct literals (exported fields
 	// set, cached Typ left unset) instead of through the New* constructors.
 	Literal bool `json:"literal,omitempty"`
@@ -67,6 +72,12 @@ type genParams struct {
 	IllFormed bool
 	Steps     int
 	Literal   bool // build instructions as struct literals with Typ unset
+	// Burst: end the program with a burst of edits on one instruction.
+	Burst bool
+	// Swarm: only a random subset of the editing step kinds and of the
+	// instruction kinds is used in this program (so that the few kinds that are
+	// enabled meet each other far more often than in the full mix).
+	Swarm bool
 	Metadata  bool // allow metadata definitions and attachments
 	BlockAddr bool // allow blockaddress constants of blocks in global initialisers
 }
@@ -81,6 +92,23 @@ var namePool = []string{"", "", "", "x", "y", "tmp", "val", "res", "a b", "p.q",
 // genProgram draws a program.
 func genProgram(r *rng, p genParams) *Prog {
 	pr := &Prog{IllFormed: p.IllFormed && !p.Literal, Literal: p.Literal}
+	disabled := map[string]bool{}
+	var allowedKinds []int
+	if p.Swarm {
+		for _, op := range []string{"setfield", "alias", "typedef", "moduleasm", "setasm", "setchars", "attrgroup", "global", "setname", "setop", "setinc", "setgep", "addparam", "setaliasee", "settype", "remove", "md", "insert"} {
+			if r.chance(1, 2) {
+				disabled[op] = true
+			}
+		}
+		for k := 0; k < nInstKinds; k++ {
+			if r.chance(1, 5) {
+				allowedKinds = append(allowedKinds, k)
+			}
+		}
+		if len(allowedKinds) < 2 {
+			allowedKinds = append(allowedKinds, 0, 18)
+		}
+	}
 	if p.Literal && os.Getenv("SIM_LITERAL_ILLFORMED") != "" {
 		// development aid: how known finding K2 was found
 		pr.IllFormed = p.IllFormed
@@ -91,7 +119,17 @@ func genProgram(r *rng, p genParams) *Prog {
 		// a tape of its own).
 		p.IllFormed = false
 	}
-	add := func(s Step) { pr.Steps = append(pr.Steps, s) }
+	budget := 0
+	add := func(s Step) {
+		if disabled[s.Op] {
+			// (swarm) this kind of step is switched off in this program; the draw is
+			// wasted, but never more than a bounded number of times
+			if budget++; budget < 4000 {
+				return
+			}
+		}
+		pr.Steps = append(pr.Steps, s)
+	}
 	sel := func() int { return r.intn(1 << 12) }
 	// phi (nested operand structure) and call (void/non-void) are drawn more often.
 	instKind := func() int {
@@ -104,13 +142,16 @@ func genProgram(r *rng, p genParams) *Prog {
 		case k >= nInstKinds:
 			return 11
 		}
+		if len(allowedKinds) > 0 {
+			return allowedKinds[k%len(allowedKinds)]
+		}
 		return k
 	}
 	name := func() string { return namePool[r.intn(len(namePool))] }
 	// A little scaffolding first so that most steps apply.
 	ng := r.intn(3)
 	for i := 0; i < ng; i++ {
-		add(Step{Op: "global", K: r.intn(4), A: sel(), Name: name()})
+		add(Step{Op: "global", K: []int{0, 1, 2, 3, 7}[r.intn(5)], A: sel(), Name: name()})
 	}
 	nf := 1 + r.intn(3)
 	for i := 0; i < nf; i++ {
@@ -127,16 +168,22 @@ func genProgram(r *rng, p genParams) *Prog {
 		case x < 1:
 			add(Step{Op: "setfield", K: r.intn(6), A: sel(), B: sel()})
 		case x < 3:
-			switch r.intn(3) {
+			switch r.intn(6) {
 			case 0:
 				add(Step{Op: "alias", K: r.intn(2), A: sel(), Name: name()})
 			case 1:
 				add(Step{Op: "typedef", K: r.intn(15), A: sel(), Name: name()})
+			case 2:
+				add(Step{Op: "moduleasm", K: r.intn(4), A: sel()})
+			case 3:
+				add(Step{Op: "setasm", K: r.intn(3), A: sel(), B: sel()})
+			case 4:
+				add(Step{Op: "setchars", A: sel(), B: sel()})
 			default:
 				add(Step{Op: "attrgroup", K: r.intn(8), A: sel(), B: sel()})
 			}
 		case x < 6:
-			add(Step{Op: "global", K: []int{0, 1, 2, 3, 4, 6}[r.intn(6)], A: sel(), Name: name()})
+			add(Step{Op: "global", K: []int{0, 1, 2, 3, 4, 6, 7}[r.intn(7)], A: sel(), Name: name()})
 		case x < 10:
 			add(Step{Op: "func", K: r.intn(5), A: r.intn(4), B: sel(), C: sel(), D: sel(), Name: name()})
 		case x < 20:
@@ -151,7 +198,7 @@ func genProgram(r *rng, p genParams) *Prog {
 			add(Step{Op: "setname", K: r.intn(6), A: sel(), B: sel(), C: sel(), Name: name()})
 		case x < 88:
 			add(Step{Op: "setop", K: r.intn(6), A: sel(), B: sel(), C: sel(), D: sel(), P: sel()})
-		case x < 90:
+		case x < 92:
 			switch r.intn(5) {
 			case 0:
 				add(Step{Op: "setinc", K: r.intn(3), A: sel(), B: sel(), C: sel(), D: sel(), P: sel()})
@@ -175,6 +222,32 @@ func genProgram(r *rng, p genParams) *Prog {
 				add(Step{Op: "global", K: 5, A: sel(), B: sel(), Name: name()})
 			} else {
 				add(Step{Op: "inst", K: instKind(), A: sel(), B: sel(), C: sel(), D: sel(), Name: name()})
+			}
+		}
+	}
+	if p.Burst {
+		// A burst of edits that all aim at one instruction (none of them changes
+		// the shape of the function, so the selectors keep meaning the same
+		// instruction): operand replacements, incoming-edge replacements, renames.
+		a, b, c := sel(), sel(), sel()
+		if r.chance(2, 3) {
+			// ... a fresh one of a kind with interesting operand structure, put at the
+			// head of its block
+			c = 0
+			pr.Steps = append(pr.Steps, Step{Op: "insert", K: []int{18, 18, 11, 6, 33, 14}[r.intn(6)], A: a, B: b, C: sel(), D: sel(), P: 0, Name: name()})
+		}
+		pr.Focus = []int{a, b, c}
+		for i, n := 0, 4+r.intn(6); i < n; i++ {
+			d := r.intn(4)
+			switch r.intn(6) {
+			case 0, 1:
+				pr.Steps = append(pr.Steps, Step{Op: "setop", K: 1 + r.intn(5), A: a, B: b, C: c, D: d, P: sel()})
+			case 2, 3:
+				pr.Steps = append(pr.Steps, Step{Op: "setinc", K: r.intn(3), A: a, B: b, C: c, D: d, P: sel()})
+			case 4:
+				pr.Steps = append(pr.Steps, Step{Op: "setname", K: 1, A: a, B: b, C: c, Name: name()})
+			default:
+				pr.Steps = append(pr.Steps, Step{Op: "setgep", A: a, B: b})
 			}
 		}
 	}
@@ -555,6 +628,10 @@ func (mc *machine) newInst(f *mfunc, k, c, d int) ir.Instruction {
 			in = ir.NewFAdd(x, y)
 		}
 		mc.use(in, x, y)
+		if fa, ok := in.(*ir.InstFAdd); ok && (c+d)%3 == 0 {
+			fa.FastMathFlags = fastMathFlags(c + d)
+			mc.probes["fast-math flags"]++
+		}
 	case 16:
 		x := mc.pick(f, tI32, c)
 		if lit {
@@ -732,6 +809,21 @@ func (mc *machine) compatibleCallee(user interface{}, old *ir.Func, pick int) va
 	return cands[pick%len(cands)]
 }
 
+// fastMathFlags returns a small list of fast-math flags (sometimes with `fast`
+// in the middle or at the end).
+func fastMathFlags(sel int) []enum.FastMathFlag {
+	all := [][]enum.FastMathFlag{
+		{enum.FastMathFlagNNaN},
+		{enum.FastMathFlagNNaN, enum.FastMathFlagNSZ, enum.FastMathFlagFast},
+		{enum.FastMathFlagFast},
+		{enum.FastMathFlagReassoc, enum.FastMathFlagFast, enum.FastMathFlagARcp},
+		{enum.FastMathFlagNInf, enum.FastMathFlagContract},
+		{enum.FastMathFlagFast, enum.FastMathFlagAFn},
+	}
+	src := all[sel%len(all)]
+	return append([]enum.FastMathFlag(nil), src...)
+}
+
 func resultTypeOfKind(in ir.Instruction, k, d int, calleeRet types.Type) types.Type {
 	if a, ok := in.(*ir.InstAlloca); ok {
 		return types.NewPointer(a.ElemType)
@@ -804,7 +896,21 @@ func (mc *machine) exec1(s Step) bool {
 	case "global":
 		name := mc.uniq(mc.gnames, s.Name)
 		var g *ir.Global
-		switch s.K % 7 {
+		switch s.K % 8 {
+		case 7:
+			// a float/double/half constant whose value needs more precision than
+			// its type has, or is special (printed in hexadecimal)
+			vals := []float64{2.0000000000000004, 0.1, 1.0000001, 3.0000000000000004, 1e-40, 65504.5, 1.5, math.Inf(1), math.NaN()}
+			v := vals[s.A%len(vals)]
+			switch s.A / len(vals) % 3 {
+			case 0:
+				g = mc.m.NewGlobalDef(name, constant.NewFloat(types.Float, v))
+			case 1:
+				g = mc.m.NewGlobalDef(name, constant.NewFloat(types.Double, v))
+			default:
+				g = mc.m.NewGlobalDef(name, constant.NewFloat(types.Half, v))
+			}
+			mc.probes["floating-point constant that is not exact in its type"]++
 		case 6:
 			if len(mc.globals) == 0 {
 				g = mc.m.NewGlobalDef(name, constant.NewInt(tI8, 1))
@@ -846,6 +952,52 @@ func (mc *machine) exec1(s Step) bool {
 			mc.probes["unnamed global appended after a print"]++
 		}
 		mc.globals = append(mc.globals, g)
+		return true
+	case "moduleasm":
+		// Module-level inline assembly, single- or multi-line entries.
+		if len(mc.m.ModuleAsms) >= 6 {
+			return false
+		}
+		lines := []string{".globl x", ".text\n.align 4", "nop", ".section .note\n.long 1\n.long 2"}
+		mc.m.ModuleAsms = append(mc.m.ModuleAsms, fmt.Sprintf("%s ; %d", lines[s.K%4], s.A%9))
+		mc.probes["module asm appended"]++
+		return true
+	case "setasm":
+		// Positional edits of the module asm list (replace one entry, drop the
+		// last entry, truncate to the first entry).
+		n := len(mc.m.ModuleAsms)
+		if n == 0 {
+			return false
+		}
+		switch s.K % 3 {
+		case 0:
+			mc.m.ModuleAsms[s.A%n] = fmt.Sprintf("replaced %d", s.B%9)
+		case 1:
+			mc.m.ModuleAsms = mc.m.ModuleAsms[:n-1]
+		default:
+			mc.m.ModuleAsms = mc.m.ModuleAsms[:1]
+		}
+		mc.probes["module asm list edited by position"]++
+		return true
+	case "setchars":
+		// The contents of a character-array initialiser replaced through the
+		// exported field by contents of another length (the array type keeps the
+		// length it was created with).
+		if !mc.illFormed {
+			return false
+		}
+		var cas []*constant.CharArray
+		for _, g := range mc.globals {
+			if ca, ok := g.Init.(*constant.CharArray); ok {
+				cas = append(cas, ca)
+			}
+		}
+		if len(cas) == 0 {
+			return false
+		}
+		ca := cas[s.A%len(cas)]
+		ca.X = []byte(fmt.Sprintf("changed contents %d\x00", s.B%1000))
+		mc.probes["character array contents replaced"]++
 		return true
 	case "attrgroup":
 		// An attribute group with an explicit ID (IDs are handed out in an order
